@@ -1003,6 +1003,21 @@ pub fn judge(w: &World, run: &Run, focus: Option<&str>) -> (Verdict, RunInfo) {
         }
     }
 
+    // the summary flag agrees with the tree of lists (it must look into included files' lists)
+    let any_listed = lists.iter().any(|l| !l.diags.is_empty());
+    if obs.any_semantic != any_listed {
+        soft!(info, focus, viol(
+            "R4",
+            C18,
+            "any-semantic-errors-flag",
+            format!(
+                "any_semantic_errors() = {}, but the tree of diagnostic lists {} diagnostics",
+                obs.any_semantic,
+                if any_listed { "holds" } else { "holds no" }
+            ),
+        ));
+    }
+
     // ------------------------------------------------------------------ S2 semantic spans
     for (k, i) in order.iter().enumerate() {
         let inst = &m.insts[*i];
